@@ -301,3 +301,121 @@ func freeVarIsConst(fv *ssa.FreeVar, depth int) bool {
 	}
 	return found
 }
+
+
+// ---------------------------------------------------------------------------
+// Frozen fields: `frozen Type.field` declares that the field is only ever assigned through the
+// address of an object allocated in the assigning function (its constructor) and that its address is
+// never taken for anything but loads. The scan below checks that over every function of the module;
+// havocAll then keeps the field's heap (a call cannot change it).
+
+func (p *Prog) isFrozenFieldAddr(fa *ssa.FieldAddr, fz ClosesOnly) bool {
+	n, ok := derefType(fa.X.Type()).(*types.Named)
+	if !ok || n.Obj().Pkg() == nil || n.Obj().Pkg().Path() != fz.PkgPath || n.Obj().Name() != fz.Type {
+		return false
+	}
+	st, ok := n.Underlying().(*types.Struct)
+	return ok && st.Field(fa.Field).Name() == fz.Field
+}
+
+func localObject(v ssa.Value) bool {
+	switch x := v.(type) {
+	case *ssa.Alloc:
+		return true
+	case *ssa.Phi:
+		for _, e := range x.Edges {
+			if !localObject(e) {
+				return false
+			}
+		}
+		return true
+	}
+	return false
+}
+
+func (p *Prog) frozenObligation(fz ClosesOnly, prop string) *Obligation {
+	name := p.shortKey(fz.PkgPath) + "." + fz.Type + "." + fz.Field + "/FRAME.frozen"
+	ob := &Obligation{Name: name, Class: "FRAME", Props: []string{prop}, Expect: "unsat", Status: "discharged", FuncKey: name,
+		Desc:   "field " + fz.Type + "." + fz.Field + " is assigned only through objects allocated in the assigning function, and its address is only loaded from",
+		Result: SolverResult{Solver: "govc-structural", Answer: "unsat"}}
+	fail := func(where, what string) {
+		ob.Status = "failed"
+		ob.Result = SolverResult{Solver: "govc", Answer: "write-found"}
+		ob.Desc += "; " + what + " in " + where
+	}
+	var structT types.Type
+	var readOnlyUse func(v ssa.Value, depth int) bool
+	readOnlyUse = func(v ssa.Value, depth int) bool {
+		if v.Referrers() == nil || depth > 4 {
+			return depth <= 4
+		}
+		for _, r := range *v.Referrers() {
+			switch u := r.(type) {
+			case *ssa.UnOp:
+				if u.Op != token.MUL {
+					return false
+				}
+			case *ssa.DebugRef:
+			case *ssa.FieldAddr:
+				if !readOnlyUse(u, depth+1) {
+					return false
+				}
+			case *ssa.IndexAddr:
+				if !readOnlyUse(u, depth+1) {
+					return false
+				}
+			default:
+				return false
+			}
+		}
+		return true
+	}
+	for key, fn := range p.funcs {
+		for _, b := range fn.Blocks {
+			for _, ins := range b.Instrs {
+				switch x := ins.(type) {
+				case *ssa.FieldAddr:
+					if !p.isFrozenFieldAddr(x, fz) {
+						continue
+					}
+					structT = derefType(x.X.Type())
+					if x.Referrers() == nil {
+						continue
+					}
+					for _, r := range *x.Referrers() {
+						switch u := r.(type) {
+						case *ssa.Store:
+							if u.Addr == ssa.Value(x) {
+								if !localObject(x.X) {
+									fail(p.shortKey(key), "assignment to the field of an existing object")
+								}
+							} else {
+								fail(p.shortKey(key), "address of the field stored")
+							}
+						case *ssa.UnOp:
+							if u.Op != token.MUL {
+								fail(p.shortKey(key), "address of the field used")
+							}
+						case *ssa.DebugRef:
+						case *ssa.FieldAddr, *ssa.IndexAddr:
+							if !readOnlyUse(u.(ssa.Value), 0) {
+								fail(p.shortKey(key), "address inside the field escapes or is written")
+							}
+						default:
+							fail(p.shortKey(key), "address of the field escapes")
+						}
+					}
+				case *ssa.Store:
+					// whole-struct assignment through a pointer to an existing object
+					if n, ok := derefType(x.Addr.Type()).(*types.Named); ok && n.Obj().Pkg() != nil && n.Obj().Pkg().Path() == fz.PkgPath && n.Obj().Name() == fz.Type {
+						if !localObject(x.Addr) {
+							fail(p.shortKey(key), "whole-struct assignment to an existing "+fz.Type)
+						}
+					}
+				}
+			}
+		}
+	}
+	_ = structT
+	return ob
+}
